@@ -48,6 +48,20 @@ func VerifC19_Liquidvesting() {
 		})
 	}
 	g1 := ExportGenesis(ctx1, k1)
+	// the export lists every stored denom (ids may have gaps: a fully redeemed denom is deleted, the counter never goes back)
+	stored := 0
+	for i := 0; i < n; i++ {
+		name := "aLIQUID" + string(rune('0'+i))
+		if _, ok := k1.GetDenom(ctx1, name); ok {
+			stored++
+			listed := false
+			for _, d := range g1.Denoms {
+				listed = listed || d.BaseDenom == name
+			}
+			zz.Assert(listed, "every stored liquid denom is in the exported genesis, whatever ids are missing before it")
+		}
+	}
+	zz.Assert(len(g1.Denoms) == stored, "the exported genesis lists exactly the stored liquid denoms")
 
 	k2, ctx2 := c19Keeper()
 	InitGenesis(ctx2, k2, *g1)
